@@ -36,12 +36,38 @@ type ActCase struct {
 	// ResetLeaves (C15): every tracked leaf is reset to a fresh tracked leaf after the forward
 	// pass, right before BackPropagate
 	ResetLeaves bool `json:"reset_leaves,omitempty"`
+	// Multi (C15, leaf inputs only; 0 or 8..40): that many further graphs act(x)*G are built over
+	// the same input leaf before the first back-propagation and back-propagated in turn; only
+	// then is the gradient read: (Multi+1) times the single one
+	Multi int `json:"multi,omitempty"`
 }
 
 // firstOtherRank makes the activation object evaluate an input of another rank (C14 / C15).
 func (c ActCase) firstOtherRank(fw func(x tensor.Tensor) (tensor.Tensor, error), shape []int) *Failure {
 	var s []int
 	switch c.FirstRank {
+	case 3:
+		// a long life before the checked call: inputs of a dozen different shapes, the checked
+		// input's own shape among the first of them
+		shapes := [][]int{{1}, shape, {2}, {3}, {1, 2}, {2, 2}, {1, 4}, {3, 1}, {2, 1, 2}, {1, 1, 3}, {4}, {2, 3}, {1, 1, 1, 2}}
+		for k, sh := range shapes {
+			v := make([]float64, ref.Prod(sh))
+			for i := range v {
+				v[i] = 0.25*float64((i+k)%9) - 1
+			}
+			y, err := fw(lib.MustNew(sh, v, false))
+			if err != nil {
+				if c.Kind == "softmax" && len(sh) <= c.dim() {
+					continue // this Softmax does not take inputs of that rank
+				}
+				return failf("%s.Forward (dim %d) rejected an input of shape %v (input %d of a series on one object): %v", c.Kind, c.dim(), sh, k+1, err)
+			}
+			if ys := y.Shape(); !ref.EqShape(ys, sh) {
+				return failf("%s.Forward (dim %d) returned shape %v for an input of shape %v", c.Kind, c.dim(), ys, sh)
+			}
+		}
+		evid.Class("C14_15.object_first_serves_a_dozen_shapes")
+		return nil
 	case 1:
 		k := c.dim() + 1
 		if c.Kind != "softmax" {
@@ -197,7 +223,7 @@ func drawActValues(t *rapid.T, n int, softmax bool) []float64 {
 			v[i] = float64(rapid.IntRange(-40, 40).Draw(t, "v"))/8 + 0.0137*float64(i%61+1)
 		}
 		if !softmax && rapid.IntRange(0, 30).Draw(t, "huge") == 0 {
-			v[i] = rapid.SampledFrom([]float64{1e6, -1e6, 1e300, -1e300}).Draw(t, "hugev")
+			v[i] = rapid.SampledFrom([]float64{1e6, -1e6, 1e300, -1e300, 1e308, -1e308, math.MaxFloat64}).Draw(t, "hugev")
 		}
 	}
 	return v
@@ -214,10 +240,10 @@ func genActShape(t *rapid.T, c *ActCase) []int {
 		c.Other = rapid.IntRange(1, 2).Draw(t, "otherwhen")
 	}
 	if rapid.IntRange(0, 2).Draw(t, "firstrank") == 0 {
-		c.FirstRank = rapid.IntRange(1, 2).Draw(t, "firstrankkind")
+		c.FirstRank = rapid.IntRange(1, 3).Draw(t, "firstrankkind")
 	}
 	if c.Kind == "leaky" {
-		c.M = rapid.SampledFrom([]float64{0.01, 0.2, 0, 1, -0.5, 3, 1e-6}).Draw(t, "m")
+		c.M = rapid.SampledFrom([]float64{0.01, 0.2, 0, 1, -0.5, 3, 1e-6, 2, 1e9, 1e17, -1e17}).Draw(t, "m")
 	}
 	if c.Kind == "softmax" && !c.NilConf {
 		c.Dim = rapid.IntRange(0, len(s)-1).Draw(t, "dim")
@@ -419,6 +445,9 @@ func genC15(t *rapid.T) ActCase {
 	c.G = drawWeights(t, n)
 	c.Fan = drawFan(t)
 	c.ResetLeaves = rapid.IntRange(0, 4).Draw(t, "resetleaves") == 0
+	if len(c.Up.Nodes) == 0 && rapid.IntRange(0, 5).Draw(t, "multi") == 0 {
+		c.Multi = rapid.SampledFrom([]int{8, 9, 10, 15, 16, 17, 31, 32, 33, 40}).Draw(t, "multin")
+	}
 	return c
 }
 
@@ -534,8 +563,33 @@ func checkC15(c ActCase) *Failure {
 		}
 		evid.Class("C15.leaves_reset_between_forward_and_backward")
 	}
+	geff := c.G
+	var moreRoots []tensor.Tensor
+	if len(c.Up.Nodes) == 0 && c.Multi > 0 && c.Multi <= 64 {
+		for k := 0; k < c.Multi; k++ {
+			yk, err := fw(lv[xid])
+			if err != nil {
+				return failf("%s.Forward number %d on the same input failed: %v", c.Kind, k+2, err)
+			}
+			zk, err := yk.Mul(lib.MustNew(lo.y.Shape, c.G, false))
+			if err != nil {
+				return failf("weighting the activation output failed: %v", err)
+			}
+			moreRoots = append(moreRoots, zk)
+		}
+		geff = make([]float64, len(c.G))
+		for k := range geff {
+			geff[k] = float64(c.Multi+1) * c.G[k]
+		}
+		evid.Class("C15.nine_or_more_graphs_over_one_input_leaf")
+	}
 	if err := tensor.BackPropagate(z); err != nil {
 		return failf("BackPropagate through %s returned error: %v", c.Kind, err)
+	}
+	for k, zk := range moreRoots {
+		if err := tensor.BackPropagate(zk); err != nil {
+			return failf("BackPropagate of graph %d over the same input leaf returned error: %v", k+2, err)
+		}
 	}
 	var avg *refRun
 	for i := 0; i < total; i++ {
@@ -557,8 +611,8 @@ func checkC15(c ActCase) *Failure {
 			return failf("%s: gradient of value %d has shape %v, tensor shape %v", c.Kind, i, gs, lo.vals[i].Shape)
 		}
 		n := len(lo.vals[i].E)
-		wlo, slo := prog.Adjoint(lo.y, c.G, lo.slot[i], n)
-		whi, shi := prog.Adjoint(hi.y, c.G, hi.slot[i], n)
+		wlo, slo := prog.Adjoint(lo.y, geff, lo.slot[i], n)
+		whi, shi := prog.Adjoint(hi.y, geff, hi.slot[i], n)
 		bad := -1
 		for k := range gv {
 			if math.IsNaN(gv[k]) || math.IsInf(gv[k], 0) {
@@ -584,7 +638,7 @@ func checkC15(c ActCase) *Failure {
 				avg, _ = eval(0, true)
 			}
 			if avg != nil {
-				wa, sa := prog.Adjoint(avg.y, c.G, avg.slot[i], n)
+				wa, sa := prog.Adjoint(avg.y, geff, avg.slot[i], n)
 				match := true
 				for k := range gv {
 					if !closeTo(gv[k], wa[k], sa[k]) {
